@@ -1192,33 +1192,101 @@ def c13(case, obs, crash, tables):
 
 # ---------------------------------------------------------------- C15 (cost)
 
+def _max_fields(S, keys, field_keys):
+    """largest number of field specifiers of any template in the given caches"""
+    m = 0
+    for k in keys:
+        for e in get(S, k) or []:
+            t = e[1]
+            m = max(m, sum(len(get(t, fk) or []) for fk in field_keys))
+    return m
+
+
 def c15(case, obs, crash):
-    """allocated bytes during parse_bytes against input length + serialized result size"""
+    """allocated bytes during parse_bytes against input length + serialized result size.
+
+    A call over the bound is a known finding only if one of the listed mechanisms can account for
+    the excess ON THIS CALL (what the call decoded, the templates the parser holds); anything
+    else over the bound is a violation."""
     f = []
     ops = [o for o in parse_ops(case) if o[0] == "B"]
     for k, (o, op) in enumerate(zip(obs, ops)):
         M = get(o, "M")
         L = get(o, "L")
         R = get(o, "R")
+        S = get(o, "S")
         if M is None or L is None or not isinstance(R, list) or isinstance(R, canon.Pairs):
             continue
-        n = len(op[2])
+        x = op[2]
+        n = len(x)
         bound = 4096 + 600 * n + 40 * L
-        if M > bound:
-            npk = len(R)
-            cls = None
-            # the remaining buffer is copied once per chained packet
-            if npk >= 8 and M <= bound + npk * n:
-                cls = "K_C15_chained_copy"
-            # V9: a failing record is retried for every remaining iteration, cloning the template each time
-            for e in R:
-                if elem_kind(e) == "V9":
-                    cls = cls or "K_C15_v9_retry_or_zero_len"
-                if elem_kind(e) == "IPFix" and L > 50 * n:
-                    cls = cls or "K_C15_zero_len_inflation"
-            if cls is None and M <= bound + 70000 * (1 + n // 8):
-                cls = "K_C15_count_prealloc"
-            f.append((cls, "op %d: %d bytes allocated for a %d-byte buffer and a %d-byte serialized result (bound %d)" % (k, M, n, L, bound)))
+        if M <= bound:
+            continue
+        npk = len(R)
+        # what the call did, from its result (and, for IPFIX sets that were dropped, from the bytes)
+        v9_data = 0        # V9 data / options-data flowsets decoded, or a V9 packet that failed part-way
+        ix_data = 0        # IPFIX sets with a data id inside the reported messages
+        ix_values = 0      # IPFIX values decoded (each is its own single-entry BTreeMap)
+        count_sites = 1    # nom `count` calls that can have reserved from an announced count alone
+        pos = 0
+        for e in R:
+            kind = elem_kind(e)
+            if kind == "V9":
+                for fs in get(elem_body(e), "flowsets"):
+                    bk = get(fs, "body")[0][0]
+                    if bk in ("Data", "OptionsData"):
+                        v9_data += 1
+                    else:
+                        count_sites += 1
+                pos += wire_len(e)
+            elif kind == "IPFix":
+                for fs in get(elem_body(e), "flowsets"):
+                    bd = get(fs, "body")
+                    if bd[0][0] in ("Data", "OptionsData"):
+                        ix_values += len(get(bd[0][1], "fields") or [])
+                w = wire_len(e)
+                q = pos + 16
+                while q + 4 <= min(pos + w, n):
+                    sid = int.from_bytes(x[q : q + 2], "big")
+                    ln = int.from_bytes(x[q + 2 : q + 4], "big")
+                    if sid >= 255:
+                        ix_data += 1
+                    elif sid == 3:
+                        count_sites += 1
+                    q += max(ln, 4)
+                pos += w
+            elif kind in ("V5", "V7"):
+                pos += wire_len(e)
+            else:
+                v = elem_version(e)
+                rem = len(get(elem_body(e), "remaining"))
+                if v == 9:
+                    v9_data += 1
+                    count_sites += rem // 8
+                else:
+                    count_sites += 1
+        t9 = _max_fields(S, ("v9_t", "v9_o"), ("fields", "scope_fields", "option_fields")) if S is not None else 0
+        tx = _max_fields(S, ("ix_t", "ix_o"), ("fields",)) if S is not None else 0
+        excess = M - bound
+        cls = None
+        # (1) the remaining buffer is copied once per chained packet
+        if npk >= 8 and excess <= npk * n:
+            cls = "K_C15_chained_copy"
+        # (2) V9: the template is cloned per record iteration (a failing record is retried for every
+        #     remaining iteration) and zero-length fields are materialised per record: at most one
+        #     template's worth per input byte of the data flowsets
+        elif v9_data and excess <= 64 * n * (t9 + 1):
+            cls = "K_C15_v9_retry_or_zero_len"
+        # (3) IPFIX: zero-length fields inflate every data byte into |template| output values, each
+        #     value a map of its own (about 1 KB allocated against some 40 bytes of JSON); the template
+        #     is cloned once per data set
+        elif ix_data and excess <= 64 * ix_data * (tx + 1) + 1024 * ix_values:
+            cls = "K_C15_zero_len_inflation"
+        # (4) nom's `count` reserves up to 64 KiB from the announced count, once per count call
+        elif excess <= 70000 * count_sites:
+            cls = "K_C15_count_prealloc"
+        f.append((cls, "op %d: %d bytes allocated for a %d-byte buffer and a %d-byte serialized result (bound %d; V9 data flowsets %d, IPFIX data sets %d, largest cached template %d/%d fields, count sites %d)"
+                  % (k, M, n, L, bound, v9_data, ix_data, t9, tx, count_sites)))
     return f
 
 
